@@ -1807,11 +1807,15 @@ CORPUS = [
 # source translator (DESIGN.md 3.2): part of the model is regenerated from the source text on every run
 TRUSTED = list(TRUSTED) + [py2lean.trusted_note("plarith")]
 PROP_FILES = ["PersimVerif/Props/C09.lean"] + py2lean.prop_files("plarith")
+# landscape engine (py2lean_landscape.py): the operators of both classes, union_crit_pairs, snap_pl / lc_approx / average_approx
+TRUSTED += [py2lean.trusted_note("plexact"), py2lean.trusted_note("plgrid")]
+PROP_FILES += [f for k in ("plexact", "plgrid") for f in py2lean.prop_files(k) if f not in PROP_FILES]
+PROP_FILES = list(dict.fromkeys(PROP_FILES))
 
 
 def pre_build(ctx):
     """source translator: regenerate Generated/Src*.lean from PERSIM_ROOT's source"""
-    py2lean.pre_build(ctx, ("plarith",))
+    py2lean.pre_build(ctx, ("plarith", "plexact", "plgrid"))
 
 
 def run(ctx):
@@ -2011,3 +2015,4 @@ MANIFEST = {
     "technique": "Lean 4 theorems over a hand-written model + differential correspondence on operation histories",
 }
 MANIFEST["note"] += " " + py2lean.manifest_note("plarith")
+MANIFEST["note"] += " " + py2lean.manifest_note("plexact") + " " + py2lean.manifest_note("plgrid")
